@@ -179,6 +179,10 @@ class InitMethod(MethodDescriptor):
             key_default = (
                 MISSING if spec_class_key_spec.has_default else inspect.Parameter.empty
             )
+            if not spec_class_key_spec.init:
+                # A key that is not set by the constructor is not one of its
+                # arguments either.
+                spec_class_key = None
 
         return (
             MethodBuilder("__init__", functools.partial(self.init, self.spec_cls))
